@@ -15,6 +15,7 @@ import (
 	"time"
 
 	"github.com/metrico/qryn/writer/service"
+	"github.com/metrico/qryn/writer/utils/helpers"
 	"github.com/metrico/qryn/writer/utils/promise"
 	"verif/harness/fakech"
 	"verif/harness/wworld"
@@ -240,7 +241,10 @@ func (r *rrun) step(pre *RState, s *RStep) *fail {
 				br = "idle"
 			}
 			r.count(r.out.Branches, fmt.Sprintf("%s(%d of %d)", br, map[string]int{"inserting": ins, "idle": idl, "any": w.W}[br], w.W))
-			p := svc.Request(mkReq(rq, k, 1+r.rnd.Intn(2)), modeNum(h))
+			p, pan := safeRequest(svc, mkReq(rq, k, 1+r.rnd.Intn(2)), modeNum(h))
+			if pan != "" {
+				return &fail{"conformance", "request-panic|" + br, fmt.Sprintf("Request of push %s (dsn %q, mode %q, draw %d/%d, worker states %v) panicked: %s", leg, d, h, uu, r.in.Consts.RG, poolStates(pre, poolKey, w.W), pan)}
+			}
 			r.proms[leg] = p
 			r.waiters[leg] = wworld.Watch(p)
 			wantW := fmt.Sprintf("%s/%d", poolKey, post.Lw[leg])
@@ -388,6 +392,16 @@ func (r *rrun) step(pre *RState, s *RStep) *fail {
 		return &fail{"infra", "", "unknown action " + s.Action}
 	}
 	return r.compare(post, false)
+}
+
+// safeRequest calls svc.Request and reports a panic (e.g. an index out of range in the selection) instead of dying.
+func safeRequest(svc service.IInsertServiceV2, req helpers.SizeGetter, mode int) (p *promise.Promise[uint32], pan string) {
+	defer func() {
+		if r := recover(); r != nil {
+			pan = fmt.Sprint(r)
+		}
+	}()
+	return svc.Request(req, mode), ""
 }
 
 func poolStates(st *RState, poolKey string, n int) []string {
